@@ -59,6 +59,30 @@ theorem app_pool_covers_fields :
 
 /-! ### ownership and initialisation on every path -/
 
+/-! ### the pools themselves: who may Get and Put (regenerated `poolSites`) -/
+
+def col (s : List String) (i : Nat) : String := s.getD i ""
+
+/-- **pool ownership**: the only pools of the package are the context pool and the arena pool; a pooled context is
+    taken only by `getContextFromGlobalPool` and handed back only by `releaseGlobalContext`, right after `reset()` on
+    the same value; an arena is taken only into an empty `cachedArena` field and handed back only by
+    `(*Context).reset`, from that field, if it is set, after the arena's own `reset()` and followed by clearing the
+    field — so an arena (and the cached specs that alias it) belongs to at most one context at a time and goes back
+    exactly once. A new Get/Put site, or a Put that is not followed by clearing the field, breaks this obligation. -/
+theorem pool_sites :
+    Rivaas.Gen.Ctx.pools = ["arenaPool", "globalContextPool"] ∧
+    (Rivaas.Gen.Ctx.poolSites.all fun s =>
+      if col s 0 == "arenaPool" then
+        (if col s 1 == "get" then col s 3 == "_.cachedArena == nil" && col s 4 == "_.cachedArena"
+         else col s 1 == "put" && col s 2 == "Context.reset" && col s 3 == "_.cachedArena != nil" &&
+              col s 4 == "_.cachedArena" && col s 5 == "_.cachedArena.reset()" && col s 6 == "_.cachedArena = nil")
+      else col s 0 == "globalContextPool" &&
+        (if col s 1 == "get" then col s 2 == "getContextFromGlobalPool" && col s 4 == "return"
+         else col s 1 == "put" && col s 2 == "releaseGlobalContext" && col s 4 == "_" && col s 5 == "_.reset()")) = true ∧
+    (Rivaas.Gen.Ctx.poolSites.filter fun s => col s 0 == "arenaPool" && col s 1 == "put").length = 1 ∧
+    (Rivaas.Gen.Ctx.poolSites.filter fun s => col s 0 == "globalContextPool" && col s 1 == "put").length = 1 := by
+  refine ⟨by decide, by decide, by decide, by decide⟩
+
 def keepK (k : Nat) : Ev → Bool
   | .get j | .release j | .assign j _ | .reset j | .use j _ | .run j _ | .loopBegin j | .loopEnd j => j == k
   | _ => false
@@ -123,6 +147,52 @@ theorem ownership (ρ : Atom → Bool) (s : Stmt) (hs : s ∈ entryPoints) (k : 
   have h2 := h s hs
   rw [List.all_eq_true] at h2
   exact all_exec_slice s (keepK k) okK (h2 k hk) ρ
+
+/-! ### panic exits: a handler (or the NoRoute handler, or a responder) panics and nothing recovers it inside ServeHTTP
+
+The statement quantifies over "whatever requests were served before" — including requests whose handler panicked out
+of ServeHTTP (net/http recovers per connection and the process goes on). `Skel.ppaths` enumerates, next to the normal
+outcomes, the outcome of a panic at every `run` event: the rest is skipped, the deferred events of the enclosing
+scopes run. On every such outcome every pooled context is either dropped (never handed back: the garbage collector
+gets it) or handed back by exactly one `release` — which is `reset()` + Put (`pool_sites`) — as its last event. -/
+
+def mpRun : Ev → Bool
+  | .run .. => true
+  | _ => false
+
+def isReleaseEv : Ev → Bool
+  | .release _ => true
+  | _ => false
+
+/-- one pass over an outcome for all contexts at once: `held` = obtained and not yet handed back, `gone` = handed
+    back. A context is obtained at most once, mentioned only while held, handed back at most once, never touched
+    afterwards; what is still held at the end is dropped. -/
+def okPanicAll (held gone : List Nat) : List Ev → Bool
+  | [] => true
+  | .get k :: r => !held.contains k && !gone.contains k && okPanicAll (k :: held) gone r
+  | .release k :: r => held.contains k && okPanicAll (held.erase k) (k :: gone) r
+  | .assign k _ :: r | .reset k :: r | .use k _ :: r | .run k _ :: r | .loopBegin k :: r | .loopEnd k :: r =>
+    held.contains k && okPanicAll held gone r
+  | _ :: r => okPanicAll held gone r
+
+set_option maxRecDepth 100000 in
+/-- regenerated obligation: every panic outcome of every entry point, every pooled context -/
+theorem panic_paths_ownership :
+    (entryPoints.all fun s => (ppaths mpRun s).all fun o => o.st != 2 || okPanicAll [] [] o.trace) = true := by
+  decide +kernel
+
+/-- for every valuation of the branch conditions and a panic at any `run` event -/
+theorem panic_exit_ownership (ρ : Atom → Bool) (s : Stmt) (hs : s ∈ entryPoints) (n : Option Nat)
+    (hp : (pexec mpRun ρ s n).1.st = 2) : okPanicAll [] [] (pexec mpRun ρ s n).1.trace = true := by
+  have h := panic_paths_ownership
+  rw [List.all_eq_true] at h
+  have h2 := all_pexec mpRun s _ (h s hs) ρ n
+  simpa [hp] using h2
+
+/-- non-vacuity: there are panic outcomes; some hand a context back through a deferred release, some drop it -/
+example : ((ppaths mpRun serveHTTP).any fun o => o.st == 2 && o.trace.getLast?.any isReleaseEv) = true ∧
+    ((ppaths mpRun routeExists).length = 6) := by
+  constructor <;> decide +kernel
 
 /-! ### what the shape means -/
 
